@@ -144,10 +144,20 @@ namespace
         }
         return std::make_shared<d_array>(keys);
     }
+    static std::shared_ptr<d_hashmap> copy_hashmap_deep(d_hashmap& source)
+    { // The copy shares nothing with its source: arrays and hashmaps held as values are copied as well
+        std::unordered_map<sqf::runtime::value, sqf::runtime::value> hashmap;
+        for (auto& it : source.map())
+        {
+            if (it.second.is<t_array>()) { hashmap[it.first] = sqf::runtime::value(it.second.data<d_array>()->copy_deep()); }
+            else if (it.second.is<t_hashmap>()) { hashmap[it.first] = sqf::runtime::value(copy_hashmap_deep(*it.second.data<d_hashmap>())); }
+            else { hashmap[it.first] = it.second; }
+        }
+        return std::make_shared<d_hashmap>(hashmap);
+    }
     value plus_hashmap(runtime& runtime, value::cref right)
     {
-        std::unordered_map<sqf::runtime::value, sqf::runtime::value> hashmap = right.data<d_hashmap>()->map();
-        return std::make_shared<d_hashmap>(hashmap);
+        return copy_hashmap_deep(*right.data<d_hashmap>());
     }
 }
 
